@@ -69,8 +69,11 @@ func (c Comment) line() string {
 	return "# " + c.Kind
 }
 
+// OtherRule is another rule of the checked file: a recording rule (Record) or an alerting rule (Alert).
+// Only a recording rule whose record name EQUALS a metric name produces that metric.
 type OtherRule struct {
-	Record string `json:"record"`
+	Record string `json:"record,omitempty"`
+	Alert  string `json:"alert,omitempty"`
 	Expr   string `json:"expr"`
 }
 
@@ -81,7 +84,9 @@ type SeriesSpec struct {
 }
 
 type Case struct {
-	Kind          string      `json:"kind"` // "alert" | "record"
+	Kind string `json:"kind"` // "alert" | "record"
+	// Name of the checked rule ("" = MainRule / main:rule); may equal a metric name.
+	Name          string      `json:"name,omitempty"`
 	Expr          string      `json:"expr"`
 	Comments      []Comment   `json:"comments,omitempty"`
 	Others        []OtherRule `json:"others,omitempty"`
@@ -195,16 +200,20 @@ func (c Case) yaml() string {
 	b.WriteString("groups:\n- name: g\n  rules:\n")
 	others := func() {
 		for _, o := range c.Others {
-			fmt.Fprintf(&b, "  - record: %s\n    expr: '%s'\n", o.Record, o.Expr)
+			if o.Alert != "" {
+				fmt.Fprintf(&b, "  - alert: %s\n    expr: '%s'\n", o.Alert, o.Expr)
+			} else {
+				fmt.Fprintf(&b, "  - record: %s\n    expr: '%s'\n", o.Record, o.Expr)
+			}
 		}
 	}
 	if !c.OthersAfter {
 		others()
 	}
 	if c.Kind == "record" {
-		fmt.Fprintf(&b, "  - record: main:rule\n")
+		fmt.Fprintf(&b, "  - record: %s\n", c.mainRuleName())
 	} else {
-		fmt.Fprintf(&b, "  - alert: %s\n", mainName)
+		fmt.Fprintf(&b, "  - alert: %s\n", c.mainRuleName())
 	}
 	for _, cm := range c.Comments {
 		if !strings.HasPrefix(cm.Kind, "file/") {
@@ -219,10 +228,37 @@ func (c Case) yaml() string {
 }
 
 func (c Case) mainRuleName() string {
-	if c.Kind == "record" {
+	switch {
+	case c.Name != "":
+		return c.Name
+	case c.Kind == "record":
 		return "main:rule"
 	}
 	return mainName
+}
+
+// mainRuleLine is the line of the checked rule's first key in yaml() (other rules may carry the same name).
+func (c Case) mainRuleLine() int {
+	y := c.yaml()
+	key := "  - alert: " + c.mainRuleName() + "\n"
+	if c.Kind == "record" {
+		key = "  - record: " + c.mainRuleName() + "\n"
+	}
+	// the checked rule is the one followed by its comments and c.Expr; other rules never carry c.Expr
+	for off := 0; ; {
+		i := strings.Index(y[off:], key)
+		if i < 0 {
+			return -1
+		}
+		rest := y[off+i+len(key):]
+		for strings.HasPrefix(rest, "    # ") {
+			rest = rest[strings.Index(rest, "\n")+1:]
+		}
+		if strings.HasPrefix(rest, "    expr: '"+c.Expr+"'\n") {
+			return strings.Count(y[:off+i], "\n") + 1
+		}
+		off += i + len(key)
+	}
 }
 
 // ---------------------------------------------------------------------------
@@ -509,11 +545,11 @@ func (c Case) produced(metric string) bool {
 	if metric == "" {
 		return false
 	}
-	if c.Kind == "record" && metric == "main:rule" {
+	if c.Kind == "record" && metric == c.mainRuleName() {
 		return true
 	}
 	for _, o := range c.Others {
-		if o.Record == metric {
+		if o.Alert == "" && o.Record == metric {
 			return true
 		}
 	}
@@ -639,8 +675,9 @@ func check(c Case) (out outcome, err error) {
 	}
 
 	mainFound := false
+	mainLine := c.mainRuleLine()
 	for _, e := range res.Entries {
-		if e.Rule.Name() == c.mainRuleName() {
+		if e.Rule.Name() == c.mainRuleName() && e.Rule.Lines.First == mainLine {
 			mainFound = true
 			if e.Rule.Error.Err != nil {
 				return out, fmt.Errorf("%w: main rule does not parse: %v\n%s", errInfra, e.Rule.Error.Err, c.yaml())
@@ -651,7 +688,7 @@ func check(c Case) (out outcome, err error) {
 		return out, fmt.Errorf("%w: main rule not found\n%s", errInfra, c.yaml())
 	}
 	for _, r := range res.Reports {
-		if r.Rule.Name() != c.mainRuleName() {
+		if r.Rule.Name() != c.mainRuleName() || r.Rule.Lines.First != mainLine {
 			continue
 		}
 		if r.Problem.Reporter != "promql/series" {
@@ -1048,6 +1085,11 @@ func genCase(t *rapid.T) Case {
 	c := Case{Kind: rapid.SampledFrom([]string{"alert", "alert", "record"}).Draw(t, "kind")}
 	var sels []selSpec
 	c.Expr, sels = genExpr(t)
+	// the checked rule itself may be named like one of the metrics: an alert so named produces nothing
+	// (`- alert: foo / expr: foo == 1`), a recording rule so named does produce the metric
+	if rapid.IntRange(0, 3).Draw(t, "metricName") == 0 {
+		c.Name = rapid.SampledFrom(metrics).Draw(t, "name")
+	}
 	// 3h / 6h / 4h30m / 5h30m put the window start at four different phases of pint's 2h slice grid
 	lbChoices := []string{"6h", "6h", "3h", "3h", "12h", "4h30m", "5h30m"}
 	if vstat.Tier() == "thorough" {
@@ -1065,13 +1107,16 @@ func genCase(t *rapid.T) Case {
 	// other rules of the file: recording rules that produce one of the metrics, or something else
 	nother := rapid.SampledFrom([]int{0, 0, 1, 1, 2}).Draw(t, "nothers")
 	for i := 0; i < nother; i++ {
-		var rec string
-		if rapid.Bool().Draw(t, fmt.Sprintf("o%d.produces", i)) {
-			rec = rapid.SampledFrom(metrics).Draw(t, fmt.Sprintf("o%d.metric", i))
-		} else {
-			rec = rapid.SampledFrom([]string{"foo:sum", "job:bar", "other", "foo_total", "ba"}).Draw(t, fmt.Sprintf("o%d.name", i))
+		o := OtherRule{Expr: rapid.SampledFrom([]string{"vector(1)", "sum(up)", "count(up) by (job)"}).Draw(t, fmt.Sprintf("o%d.expr", i))}
+		switch rapid.IntRange(0, 5).Draw(t, fmt.Sprintf("o%d.what", i)) {
+		case 0, 1: // a recording rule that produces one of the metrics
+			o.Record = rapid.SampledFrom(metrics).Draw(t, fmt.Sprintf("o%d.metric", i))
+		case 2, 3: // a recording rule with a similar, but different, name: produces nothing the expression uses
+			o.Record = rapid.SampledFrom([]string{"foo:sum", "job:bar", "other", "foo_total", "ba", "fo", "bar_", "baz:x", "fooo"}).Draw(t, fmt.Sprintf("o%d.name", i))
+		default: // an ALERTING rule named exactly like a metric (or not): alerts produce no such metric
+			o.Alert = rapid.SampledFrom([]string{"foo", "bar", "baz", "OtherAlert"}).Draw(t, fmt.Sprintf("o%d.alert", i))
 		}
-		c.Others = append(c.Others, OtherRule{Record: rec, Expr: rapid.SampledFrom([]string{"vector(1)", "sum(up)", "count(up) by (job)"}).Draw(t, fmt.Sprintf("o%d.expr", i))})
+		c.Others = append(c.Others, o)
 	}
 	c.OthersAfter = rapid.Bool().Draw(t, "othersAfter")
 	c.Comments = genComments(t, sels, c.Tags)
